@@ -24,6 +24,13 @@ class InvalidNameError(ValueError):
     def __init__(self, name: str, reason: str):
         message: str = f"Cannot split the following name `{name}` into parts: {reason}"
         super().__init__(message)
+        self.name = name
+        self.reason = reason
+
+    def __reduce__(self):
+        # Exceptions are re-created from `args` (here: only the message) when copied
+        # or pickled, which does not match the two constructor arguments.
+        return type(self), (self.name, self.reason)
 
 
 class _NameTransformerMiddleware(BlockMiddleware, abc.ABC):
